@@ -3,6 +3,7 @@ import Sif.Model.Clp.Hooks
 import Sif.Spec.C01
 import Sif.Spec.C03
 import Sif.Spec.C18
+import Sif.Spec.C04
 /-
   Driver of the stateful family `amm`: the AMM messages and hooks on the model state.
 -/
@@ -143,6 +144,18 @@ def step (s : St) (toks : List String) : St × String :=
       (match parseNat amt, parseNat mn, parseNat y, parseChanges rest [] with
        | some amt, some mn, some y, some ch => (s, toString (Sif.Spec.C03.settleOK signer sent recv amt mn y ch))
        | _, _, _, _ => (s, "bad-op"))
+  | ["chk", "c04.swapback", _tag, x, x'] =>
+      (match parseNat x, parseNat x' with
+       | some x, some x' => (s, toString (Sif.Spec.C04.swapBackOK x x'))
+       | _, _ => (s, "bad-op"))
+  | ["chk", "c04.addremove", _tag, r, R, A, n, e, n', e'] =>
+      (match parseDec r, parseNat R, parseNat A, parseNat n, parseNat e, parseNat n', parseNat e' with
+       | some r, some R, some A, some n, some e, some n', some e' => (s, toString (Sif.Spec.C04.addRemoveOK r R A n e n' e'))
+       | _, _, _, _, _, _, _ => (s, "bad-op"))
+  | ["chk", "c04.backing", _tag, R, A, P, R', A', P'] =>
+      (match parseNat R, parseNat A, parseNat P, parseNat R', parseNat A', parseNat P' with
+       | some R, some A, some P, some R', some A', some P' => (s, toString (Sif.Spec.C04.backingOK R A P R' A' P'))
+       | _, _, _, _, _, _ => (s, "bad-op"))
   | "chk" :: "c18.recipients" :: _tag :: hook :: lock :: nch :: rest =>
       (match parseNat lock, parseNat nch with
        | some lock, some nch =>
